@@ -6,18 +6,25 @@
 package c02
 
 import (
+	"github.com/robertkrimen/otto/underscore"
+
 	"verif/mc/engine"
 )
 
 func init() {
+	// The surface is the plain ES5 library: never load underscore.js into otto.New().
+	underscore.Disable()
 	engine.Register(&engine.Check{
 		ID:    "C02",
 		Title: "No script can crash or wedge the embedding Go program",
-		Rule: "surface-*: every function reachable by BFS from the global object x 31 receiver kinds x argument tuples (arity 0,1 full; arity 2 full product, 8-kind subset in quick; arity 3-4 with <=1 deviation), " +
-			"as call and as new, each on a fresh Copy() of a template runtime; non-trivial = the call returned a value (did not throw). " +
-			"bytes/tokens: every source text of the stated alphabets through Run, Compile(+Run), Eval, Object, Call; non-trivial = the source parsed. " +
-			"recursion: limit L x depth d x 12 call forms; non-trivial = the limit was reached. goapi: every Value/Object/Otto accessor x every value kind; non-trivial = accessor applicable to the kind. " +
-			"bridge/surface-iso: cases executed in a child process of the worker so that a fatal error is observed instead of killing the shard.",
+		Rule: "surface-*: every function found by BFS over the real object graph from the global object (own properties incl. non-enumerable, getters/setters, [[Prototype]]) x 31 receiver kinds x argument tuples over 22 kinds " +
+			"(arity 0 and 1 in full; arity 2 as a full product - on an 8-kind subset in the quick tier; arity 3-4 with at most one deviation from all-undefined, thorough tier), as call and as new; " +
+			"every call on a fresh Copy() of a template runtime, bridged Go values created freshly; non-trivial = the call returned a value (did not throw). " +
+			"bridge: 23 script-level operations x 7 property names x 4 bridged Go kinds. " +
+			"bytes: all byte strings of length <= 2 and length 3 over a 40-byte alphabet; tokens: all strings of <= 4 (thorough 5) tokens over a 22-token alphabet; each through Run, Compile+Run, Eval, Object, Call(nil) and Call(this); non-trivial = the text got past the parser. " +
+			"recursion: stack depth limit L in {1..16,100,1000,10000} x depth d in {0..L+2, unbounded} x 13 call forms (+2 forms that recurse inside JSON.stringify); non-trivial = the limit was hit. " +
+			"goapi-value: 107 Value/Object accessor variants x 46 value kinds; goapi-otto: Value.Call and Otto.Get/Set/Call/Eval/Context/ToValue/MakeError/Copy around every arity-0 surface call. " +
+			"Every case runs in a child process of the worker; a dead child (fatal error, watchdog) is a mismatch of the announced case and the shard continues after it.",
 		Families: []engine.Family{
 			{Name: "surface-a01", Run: supervised(runSurfaceClass("a01"))},
 			{Name: "surface-a2", Run: supervised(runSurfaceClass("a2"))},
@@ -30,9 +37,12 @@ func init() {
 			{Name: "goapi-otto", Run: supervised(runGoAPIOtto)},
 		},
 		Assumptions: []string{
-			"a Go panic is observed by recover() in the harness goroutine (ox.Guard); fatal errors are observed as death of the worker or of the per-case child process",
+			"a Go panic is observed by recover() in the harness goroutine (ox.Guard); fatal errors (stack overflow, out of memory) and hangs are observed as the death of the child process that executes the shard, attributed to the case it announced",
+			"the child processes run with RLIMIT_AS = 2 GB and a 128 MB maximum Go stack: a request for gigabytes is a prompt 'out of memory' death instead of host memory pressure",
 			"Copy() of the template runtime is used as a fast fresh runtime; equivalence of the copy is not assumed (the oracle is 'does not crash'); bridged Go values are created freshly per case because Copy() shares them",
 			"the 60 s per-case watchdog is the only wall-clock oracle; all enumerated array-likes have length <= 4",
+			"the accessor sweep (goapi-value) configures SetStackDepthLimit(500): unbounded script recursion without a configured limit exhausts the Go stack by design and is outside the property",
+			"source texts are enumerated on a runtime that is replaced by a fresh Copy() after every text that got past the parser",
 		},
 		CrashIsViolation: true,
 		QuickBudget:      quickBudget,
@@ -42,7 +52,11 @@ func init() {
 
 // excluded returns a non-empty reason for surface cases that are not executed
 // because the function legitimately does not return (or needs huge work) with
-// the enumerated arguments. Every exclusion is documented here.
+// the enumerated arguments. There are none: no array-like of the alphabets is
+// longer than 4, 2^32 and 1e21 are rejected as lengths (RangeError) by every
+// function that allocates by length, and no function of the surface blocks.
+// (A case that does need gigabytes or minutes is not excluded but reported: the
+// child process dies on the 2 GB address-space limit or the 60 s watchdog.)
 func excluded(c *scase) string {
 	return ""
 }
